@@ -28,21 +28,28 @@ WRITER_FUNCS = ["dns.zone.Zone.to_styled_file", "dns.zone.Zone._write_line", "dn
                 "dns.rdata.Rdata.to_generic", "dns.rdata.GenericRdata.to_styled_text"]
 
 
-def run(model, rep, tier):
-    # ---------------------------------------------------------------- R-09.1
-    # locals are canonicalised by role (engine.pat.canon): the fragments below name roles, the code may spell them differently
+
+def check_generic_origin(model, rep, rule):
+    """The generic (\\#) writer is given the style's origin (shared with C05: the generic text of a known type must be producible for every relativity choice)."""
     rs = pat.canon_func(model.func("dns.rdataset.Rdataset.to_styled_text"), [
         "__s = io.StringIO()", "__ntext = justify(__ntext, style.name_just)", "__rdclass = style.override_rdclass", "__rdclass_text = justify(__rdclass_text, style.rdclass_just)",
         "__rdtype_text = justify(__rdtype_text, style.rdtype_just)", "__ttl = justify(__ttl, style.ttl_just)", "for __rd in self:\n    __extra = ''\n    ...", "__rdata_text = __rd.to_styled_text(style)"])
     gcalls = [c for c in ast.walk(rs.node) if isinstance(c, ast.Call) and isinstance(c.func, ast.Attribute) and c.func.attr == "to_generic"]
-    rep.floor("R-09.1-generic-sites", len(gcalls), 1)
+    rep.floor(rule + "-generic-sites", len(gcalls), 1)
     for c in gcalls:
         args = [src(a) for a in c.args] + [f"{k.arg}={src(k.value)}" for k in c.keywords]
         okk = any(a in ("style.origin", "origin=style.origin") for a in args)
-        rep.check(okk, "R-09.1", rs.qualname, where(rs, c), "to_generic() is given the style's origin (relative names can be encoded)",
+        rep.check(okk, rule, rs.qualname, where(rs, c), "to_generic() is given the style's origin (relative names can be encoded)",
                   "rd.to_generic() is called without the style's origin: writing a relativized zone with want_generic raises NeedAbsoluteNameOrOrigin", stmt="generic-origin")
     tg = model.func("dns.rdata.Rdata.to_generic")
-    rep.check("self.to_wire(origin=origin)" in src(tg.node), "R-09.1", tg.qualname, where(tg, tg.node), "to_generic encodes with the origin it is given", "to_generic ignores its origin", stmt="to-generic")
+    rep.check("self.to_wire(origin=origin)" in src(tg.node), rule, tg.qualname, where(tg, tg.node), "to_generic encodes with the origin it is given", "to_generic ignores its origin", stmt="to-generic")
+    return rs
+
+
+def run(model, rep, tier):
+    # ---------------------------------------------------------------- R-09.1
+    # locals are canonicalised by role (engine.pat.canon): the fragments below name roles, the code may spell them differently
+    rs = check_generic_origin(model, rep, "R-09.1")
     n_r = 0
     for q in WRITER_FUNCS:
         f = model.func(q)
@@ -187,7 +194,7 @@ def run(model, rep, tier):
     except (AnalysisError, KeyError, TypeError, ValueError) as e:
         rep.blind("R-09.3", "dns.node._neutral_types", "dns/node.py", f"the exclusivity tables could not be folded: {e}", stmt="node-filter-tables")
     rep.assume("equality of the re-read zone and agreement of equivalent spellings are behavioural and are not decided here")
-    rep.share(model, "C05", {"R-05.4", "R-05.6"}, "R-09.7", "the zone reader hands (current origin, relativize, zone origin) to dns.rdata.from_text for every record")
+    rep.share(model, "C05", {"R-05.4", "R-05.6", "R-05.13"}, "R-09.7", "the zone reader hands (current origin, relativize, zone origin) to dns.rdata.from_text for every record")
     rep.share(model, "C05", {"R-05.1t", "R-05.2"}, "R-09.4", "zone text is written with dns.rdata._escapify and read with Token.unescape_to_bytes")
     from rules.common import token_loops_end_at_eof
     token_loops_end_at_eof(model, rep, "R-09.5")
